@@ -10,6 +10,7 @@ unknown key under ExtraForbid, tuple one too long, bad dict key) and the three d
 """
 import copy
 import dataclasses
+import enum
 import itertools
 from dataclasses import make_dataclass
 from typing import Dict, List, Optional, Tuple
@@ -49,11 +50,16 @@ LAYOUTS = ("plain", "renamed", "flat", "aslist", "flatlist", "flat2")
 _CLS_CACHE = {}
 
 
+class Tone(enum.Enum):
+    LOW = "lo"
+    HIGH = "hi"
+
+
 def structures(tier):
     leaves = [("int",), ("str",)]
     d2 = []
     for t in leaves:
-        d2 += [("List", t), ("Dict", t), ("IDict", t), ("Optional", t)]
+        d2 += [("List", t), ("Dict", t), ("IDict", t), ("EDict", t), ("Tuple1", t), ("Optional", t)]
     for a in leaves:
         for b in leaves:
             d2.append(("Tuple", a, b))
@@ -63,6 +69,8 @@ def structures(tier):
     inner = d2
     for t in inner:
         d3 += [("List", t), ("Dict", t), ("Optional", t), ("Tuple", t, ("int",)), ("Tuple", ("str",), t)]
+        if t[0] not in ("EDict", "Tuple1"):
+            d3 += [("EDict", t), ("Tuple1", t)]
         for lay in LAYOUTS:
             d3.append(("Model", lay, t, ("int",)))
             d3.append(("Model", lay, ("str",), t))
@@ -114,6 +122,10 @@ def build(ts, recipe):
         return Dict[str, build(ts[1], recipe)]
     if h == "IDict":
         return Dict[int, build(ts[1], recipe)]
+    if h == "EDict":
+        return Dict[Tone, build(ts[1], recipe)]
+    if h == "Tuple1":
+        return Tuple[build(ts[1], recipe)]
     if h == "Optional":
         return Optional[build(ts[1], recipe)]
     if h == "Tuple":
@@ -154,6 +166,10 @@ def valid(ts, salt=0):
         return {"k1": valid(ts[1], 0), "k2": valid(ts[1], 1)}
     if h == "IDict":
         return {1: valid(ts[1], 0), 2: valid(ts[1], 1)}
+    if h == "EDict":
+        return {"lo": valid(ts[1], 0), "hi": valid(ts[1], 1)}
+    if h == "Tuple1":
+        return [valid(ts[1], 0)]
     if h == "Optional":
         return valid(ts[1], salt)
     if h == "Tuple":
@@ -236,6 +252,25 @@ def faults(ts, at=()):  # noqa: C901
                 first.plant(root)
             out.append(Fault("bad_key+value", (*at, 2), (*at, ItemKey("bad")), "type", plant_both, kills=(*at, 2),
                              more_errs=[(first.err_trail, first.err_kind)]))
+    elif h == "EDict":
+        # keys that the key loader TRANSFORMS ("lo" -> Tone.LOW): a trail step is the key of the input, not the loaded key
+        for k in ("lo", "hi"):
+            out += faults(ts[1], (*at, k))
+
+        def plant_ekey(root, at=at):
+            node = _get(root, at) if at else root
+            node["bad"] = node.pop("hi")
+        out.append(Fault("bad_enum_key", (*at, "hi"), (*at, ItemKey("bad")), "type", plant_ekey, kills=(*at, "hi")))
+    elif h == "Tuple1":
+        out += faults(ts[1], (*at, 0))
+
+        def plant_long1(root, at=at):
+            (_get(root, at) if at else root).append("extra-item")
+        out.append(Fault("too_long", at, at, "extra_items", plant_long1, kills=at))
+
+        def plant_short1(root, at=at):
+            (_get(root, at) if at else root).pop()
+        out.append(Fault("too_short", at, at, "missing_items", plant_short1, kills=at))
     elif h == "Optional":
         sub = faults(ts[1], at)
         for f in sub:
@@ -248,6 +283,10 @@ def faults(ts, at=()):  # noqa: C901
         def plant_long(root, at=at):
             (_get(root, at) if at else root).append("extra-item")
         out.append(Fault("too_long", at, at, "extra_items", plant_long, kills=at))
+
+        def plant_short(root, at=at):
+            (_get(root, at) if at else root).pop()
+        out.append(Fault("too_short", at, at, "missing_items", plant_short, kills=at))
     elif h == "Model":
         lay = ts[1]
         p1, p2 = model_keys(lay)
@@ -454,6 +493,14 @@ def check_structure(ts, max_faults, report):  # noqa: C901
                         viol("first_mode_reports_a_group", f"FIRST raised a group {exc!r}")
                     elif (t, kind_of(exc)) not in want:
                         viol("first_error_not_planted", f"FIRST reported ({list(t)}, {kind_of(exc)}) which is not among {sorted(map(str, want))}")
+                    elif hasattr(exc, "input_value"):
+                        try:
+                            reached = walk(datum, t)
+                        except Exception as we:  # noqa: BLE001
+                            viol("trail_does_not_walk", f"FIRST trail {list(t)} cannot be followed: {we!r}")
+                        else:
+                            if not same(reached, exc.input_value) and not (isinstance(reached, list) and list(exc.input_value) == reached):
+                                viol("trail_reaches_other_value", f"FIRST trail {list(t)} reaches {reached!r} but input_value is {exc.input_value!r}")
                 else:
                     for e, t in flatten(exc):
                         if t:
